@@ -822,6 +822,21 @@ package router
 //@   ensures [C18:closer-iff-started] (err == nil) == (closer != nil)
 //@   callsite startTcpServer?: [C17:tls-listener-uses-tls] arg0 == r && arg1 == cfg && arg2 == (cfg.Protocol == "tls")
 //@   callsite startHttpServer?: [C17:https-listener-uses-tls] arg0 == r && arg1 == cfg && arg2 == (cfg.Protocol == "https")
+// each configured protocol gets its own kind of listener, and an unknown protocol none (an error)
+//@   ghost nStart int = 0
+//@   oncall startUdpServer?: nStart = nStart + 1
+//@   oncall startTcpServer?: nStart = nStart + 1
+//@   oncall startGnetServer?: nStart = nStart + 1
+//@   oncall startHttpServer?: nStart = nStart + 1
+//@   oncall startFastHttpServer?: nStart = nStart + 1
+//@   oncall startQuicServer?: nStart = nStart + 1
+//@   callsite startUdpServer?: [C17:udp-listener-for-udp] arg0 == r && arg1 == cfg && (cfg.Protocol == "" || cfg.Protocol == "udp")
+//@   callsite startTcpServer?: [C17:stream-listener-for-tcp-and-tls] cfg.Protocol == "tcp" || cfg.Protocol == "tls"
+//@   callsite startGnetServer?: [C17:gnet-listener-for-gnet] arg0 == r && arg1 == cfg && cfg.Protocol == "gnet"
+//@   callsite startHttpServer?: [C17:doh-listener-for-http-and-https] cfg.Protocol == "http" || cfg.Protocol == "https"
+//@   callsite startFastHttpServer?: [C17:fasthttp-listener-for-fasthttp] arg0 == r && arg1 == cfg && cfg.Protocol == "fasthttp"
+//@   callsite startQuicServer?: [C17:doq-listener-for-quic] arg0 == r && arg1 == cfg && cfg.Protocol == "quic"
+//@   ensures [C17,C18:one-listener-per-entry-none-for-an-unknown-protocol] nStart <= 1 && (err == nil ==> nStart == 1)
 // startUdpServer: one socket per configured thread (at least one), each served by its own read loop; when opening
 // or preparing a socket fails, that socket and every socket opened before it are closed before the error is
 // returned.
